@@ -23,9 +23,15 @@ CAT = [
     ("circle", "ellipse", [8, 8, 5, 5]),
     ("ellipse", "ellipse", [7, 6, 6, 3]),
     ("collinear", "poly", [[1, 1, 5, 5, 9, 9]]),
+    # curved operands: the spec gets the harness's own flattening (1/64 units); the last one is a contour
+    # on which Skia's Simplify gives up (an error is the accepted outcome there, a wrong path is not)
+    ("blob", "curve", "M2,8 C2,2 12,2 12,8 C12,14 2,14 2,8 Z"),
+    ("ribbon", "curve", "M2,2 C14,2 14,12 8,12 C2,12 2,4 12,3 L12,6 C6,6 6,10 8,10 C10,10 11,5 2,5 Z"),
+    ("crossed", "curve", "M3,3 C15,3 1,13 13,13 L13,3 C1,3 15,13 3,13 Z"),
+    ("tricky", "curve", "M8,13 C0,3 16,0 12,17 C6,14 5,11 9,12 Z"),
     ("nested2", "poly", [[1, 1, 13, 1, 13, 13, 1, 13], [3, 3, 11, 3, 11, 11, 3, 11], [5, 5, 9, 5, 9, 9, 5, 9]]),
 ]
-BOX = [-1, -1, 15, 15]
+BOX = [-1, -1, 15, 18]
 
 
 def cmds_of(entry):
@@ -33,6 +39,9 @@ def cmds_of(entry):
     if kind == "ellipse":
         from picosvg.svg_types import SVGEllipse
         return tuple(SVGEllipse(cx=data[0], cy=data[1], rx=data[2], ry=data[3]).as_cmd_seq())
+    if kind == "curve":
+        from picosvg.svg_types import SVGPath
+        return tuple(SVGPath(d=data).as_cmd_seq())
     out = []
     for c in data:
         out.append(("M", (float(c[0]), float(c[1]))))
@@ -51,6 +60,8 @@ def spec_opnd(entry, rule):
     name, kind, data = entry
     if kind == "ellipse":
         return {"kind": "ellipse", "g": data, "polys": [], "rule": rule}
+    if kind == "curve":
+        return {"kind": "fine", "g": [], "polys": D.quant(D.flatten(data)), "rule": rule}
     return {"kind": "poly", "g": [], "polys": data, "rule": rule}
 
 
@@ -87,6 +98,34 @@ def one(job):
     except Exception as e:  # noqa
         rec["r"] = {"k": "exc", "t": type(e).__name__, "polys": [], "bb": [0, 0, 0, 0]}
     return rec
+
+
+_UNSIMPLIFIABLE = {}
+
+
+def unsimplifiable(entry):
+    """asked of the engine itself (skia-pathops), not of picosvg: does Simplify give up on this contour?"""
+    name = entry[0]
+    if name not in _UNSIMPLIFIABLE:
+        import pathops
+        from picosvg.svg_pathops import skia_path
+        bad = False
+        for rule in ("nonzero", "evenodd"):
+            try:
+                skia_path(cmds_of(entry), rule).simplify(fix_winding=True)
+            except pathops.PathOpsError:
+                bad = True
+        _UNSIMPLIFIABLE[name] = bad
+    return _UNSIMPLIFIABLE[name]
+
+
+def classify(job, verdict):
+    op, api, idxs, rules = job
+    names = [CAT[i][0] for i in idxs]
+    if len(idxs) >= 2 and any(unsimplifiable(CAT[i]) for i in idxs):
+        # the engine returns a wrong path without reporting failure; picosvg passes it on
+        return "C13/engine-silently-wrong/operand-skia-cannot-simplify"
+    return "C13/" + verdict.split(":", 1)[1].split("@")[0] + "/" + op + "/" + "+".join(sorted(set(names)))
 
 
 def jobs_for(tier, rng):
@@ -136,7 +175,7 @@ def run(out, tier):
         cov["distinct_nontrivial"] = hist.get("ok:setop", 0)
         cov["rule"] = ("catalogue of %d lattice paths (general and edge-sharing squares, bow-tie, pentagram, "
                        "frames with same/opposite direction holes, L, disjoint contours, open polyline, circle, "
-                       "ellipse, collinear, triple nesting) x a rule per operand x union/intersection/"
+                       "ellipse, collinear, triple nesting, four cubic contours incl. self-overlapping ones and one Skia cannot simplify) x a rule per operand x union/intersection/"
                        "difference/remove_overlaps through svg_pathops and the svg_types wrappers: singles and "
                        "pairs exhaustive (quick: 22%% of pairs), triples/quadruples seeded; non-trivial = the "
                        "expected set is non-empty and TLC compared it on the quarter-unit lattice" % len(CAT))
@@ -149,7 +188,7 @@ def run(out, tier):
         for j, v, r in zip(jobs, verdicts, recs):
             if v.startswith("BAD"):
                 names = [CAT[i][0] for i in j[2]]
-                out.violation("C13/" + v.split(":", 1)[1].split("@")[0] + "/" + j[0] + "/" + "+".join(sorted(set(names))),
+                out.violation(classify(j, v),
                               "TLC rejected trace: " + v,
                               {"op": j[0], "api": j[1], "operands": names, "rules": j[3], "verdict": v})
     finally:
